@@ -208,7 +208,9 @@ def flexibility(repo: Repo, chk: Check) -> None:
     if not rej:
         raise AnalysisError(f"{f.where}: no rejecting return")
     is_t = lambda e: depends_on(e, "$_ % ceil($_ / $_)") or depends_on(e, "$_ % $_")
-    is_s = lambda e: depends_on(e, "$_ == 1")
+    # the spatial test is recognised by WHAT it looks at (the template's trailing columns), its comparator is judged separately
+    is_s = lambda e: depends_on(e, "$A[:, -$t.num_dims:]") or depends_on(e, "$_ == 1")
+    unit = lambda e: depends_on(e, "$A[:, -$t.num_dims:] == 1") or depends_on(e, "1 == $A[:, -$t.num_dims:]")
     for s in rej:
         paired = False
         seen_both = False
@@ -233,6 +235,11 @@ def flexibility(repo: Repo, chk: Check) -> None:
                         paired = True
         if not seen_both:
             raise AnalysisError(f"{s.where()}: the rejecting return is not governed by a condition over the temporal and spatial tests")
+        unit_ok = any(fact.kind == "atom" and unit(fact.expr) for fact in s.facts)
+        chk.result(unit_ok, "C16.flexibility", f"{f.key}:unit-stride", s.where(),
+                   "a dimension counts as spatially unrolled only with coefficient 1 (adjacent lanes touch adjacent elements)",
+                   "the spatial-unrolling test no longer requires coefficient 1 on a spatial column: lanes 2, 4, ... elements apart pass the bank-packing constraint",
+                   s.fact_texts)
         chk.result(paired, "C16.flexibility", f"{f.key}:paired", s.where(),
                    "the temporal-granularity test and the spatial-unrolling test are combined element-wise (per operand dimension)",
                    "the temporal-granularity test and the spatial-unrolling test are reduced separately instead of being paired per "
